@@ -179,8 +179,27 @@ Qed.
 Lemma restart_frozen : forall id s, frozen id s (restart s).
 Proof. intros. unfold restart, reload, persist. repeat split; intros; try lia; reflexivity. Qed.
 
+Lemma mono_map : forall (f : task -> task) ts,
+  (forall t, t_id (f t) = t_id t /\ t_waits (f t) = t_waits t /\ rk (t_status t) <= rk (t_status (f t))) -> mono ts (map f ts).
+Proof.
+  intros f ts H. repeat split.
+  - intros i. unfold status_of. fold (fnd ts i). fold (fnd (map f ts) i).
+    rewrite find_map_id by (intros t; apply H). destruct (fnd ts i) as [t|]; simpl; [rewrite !rk_norm; apply H | lia].
+  - rewrite map_map. apply map_ext. intros t. apply H.
+  - rewrite map_map. apply map_ext. intros t. apply H.
+Qed.
+
+Lemma stop_frozen : forall c id s, frozen id s (stop c s).
+Proof.
+  intros c id s. unfold stop. repeat split; simpl; try reflexivity; try apply (mono_map (stop_task c (running s))).
+  all: intros t; unfold stop_task; destruct (mem (t_id t) (running s) && (norm (t_status t) =? 5)) eqn:E; simpl;
+    repeat split; try lia.
+  all: apply andb_true_iff in E; destruct E as [_ E]; apply N.eqb_eq in E; rewrite <- (rk_norm (t_status t)), E;
+    destruct (mem (t_id t) (no_undo c)); vm_compute; discriminate.
+Qed.
+
 Lemma step_frozen : forall c id s e, frozen id s (step c s e).
-Proof. intros c id s []; simpl; [apply ensure_frozen | apply finish_frozen | apply restart_frozen]. Qed.
+Proof. intros c id s []; simpl; [apply ensure_frozen | apply finish_frozen | apply restart_frozen | apply stop_frozen]. Qed.
 
 Lemma run_frozen : forall c id evs s, frozen id s (run_events c s evs).
 Proof.
@@ -305,9 +324,15 @@ Proof.
   - destruct (status_of (tasks s') id =? 7); split; simpl; try reflexivity; assumption.
 Qed.
 
+Lemma stop_eqv : forall c s s', eqv s s' -> eqv (stop c s) (stop c s').
+Proof.
+  intros c s s' [E1 E2]. unfold stop. split; simpl; [|reflexivity]. rewrite E1. apply map_ext. intros t.
+  unfold stop_task. rewrite E2. reflexivity.
+Qed.
+
 Lemma step_eqv : forall c e s s', eqv s s' -> eqv (step c s e) (step c s' e).
 Proof.
-  intros c [|id|] s s' E; simpl; [apply ensure_eqv | apply finish_eqv | ]; try assumption.
+  intros c [|id| |] s s' E; simpl; [apply ensure_eqv | apply finish_eqv | | apply stop_eqv]; try assumption.
   destruct E as [E1 E2]. unfold restart, reload, persist. split; simpl; [assumption | reflexivity].
 Qed.
 
@@ -475,6 +500,38 @@ Proof.
   destruct Q as [Q1 Q2]. split; [symmetry; assumption | intros x; symmetry; apply Q2].
 Qed.
 
+(* a graceful stop instead of (before) the crash makes no difference: with no running task in Abort the stop changes no
+   status, it only empties the running set - which is what the crash does *)
+Lemma stop_is_restart : forall c s,
+  (forall id, mem id (running s) = true -> status_of (tasks s) id = 3 \/ status_of (tasks s) id = 7) ->
+  NoDup (map t_id (tasks s)) -> eqv (stop c s) (restart s).
+Proof.
+  intros c s Hr Hn. unfold stop, restart, reload, persist. split; simpl; [|reflexivity].
+  rewrite <- (map_id (tasks s)) at 2. apply map_ext_in. intros t Ht. unfold stop_task.
+  destruct (mem (t_id t) (running s)) eqn:M; [|reflexivity]. simpl.
+  assert (S : status_of (tasks s) (t_id t) = norm (t_status t)).
+  { unfold status_of. destruct (find (fun x => t_id x =? t_id t) (tasks s)) as [x|] eqn:F.
+    - pose proof (find_some _ _ F) as [Hx Ex]. apply N.eqb_eq in Ex.
+      clear F Hr M. induction (tasks s) as [|a l IH]; [contradiction|]. simpl in Hn. inversion Hn as [|? ? Ha Hn']; subst.
+      destruct Hx as [Hx|Hx]; destruct Ht as [Ht|Ht]; subst; try reflexivity.
+      + exfalso. apply Ha. rewrite Ex. apply in_map. assumption.
+      + exfalso. apply Ha. rewrite <- Ex. apply in_map. assumption.
+      + apply IH; assumption.
+    - exfalso. eapply find_none in F; [|exact Ht]. rewrite N.eqb_refl in F. discriminate. }
+  destruct (Hr _ M) as [H|H]; rewrite S in H; rewrite H; reflexivity.
+Qed.
+
+Theorem same_outcome_stop : forall c s evs, NoDup (map t_id (tasks s)) ->
+  (forall id, mem id (running s) = true -> status_of (tasks s) id = 3 \/ status_of (tasks s) id = 7) ->
+  eqv (run_events c s (EStop :: ERestart :: EEnsure :: evs)) (run_events c s (EEnsure :: evs)).
+Proof.
+  intros c s evs Hn Hr.
+  assert (A : eqv (run_events c s (EStop :: ERestart :: EEnsure :: evs)) (run_events c s (ERestart :: EEnsure :: evs))).
+  { simpl. apply run_eqv. apply ensure_eqv.
+    destruct (stop_is_restart c s Hr Hn) as [E1 E2]. unfold restart, reload, persist in *. simpl in *. split; simpl; [assumption | reflexivity]. }
+  destruct A as [A1 A2]. destruct (same_outcome c s evs Hn Hr) as [B1 B2]. split; [congruence | intros x; rewrite A2; apply B2].
+Qed.
+
 (* ------------------------------------------------------------------ same outcome: complete finite domain *)
 (* the deterministic schedule in single steps: an Ensure pass when nothing runs, otherwise the first running handler returns *)
 Definition micro (c : cfg) (s : st) : st :=
@@ -537,6 +594,7 @@ Proof.
     + destruct (IH (wstep c w (WStep EEnsure)) Hs eq_refl) as [A B]. split; [exact A | exact B].
     + destruct (IH (wstep c w (WStep (EFinish id))) Hs eq_refl) as [A B]. split; [exact A | exact B].
     + apply (IH w Hs Hd).
+    + destruct (IH (wstep c w (WStep EStop)) Hs eq_refl) as [A B]. split; [exact A | exact B].
   - destruct (IH (wstep c w WCrash) Hs) as [A B]; [reflexivity|]. split; [exact A|].
     rewrite B. simpl. unfold restart, persist. rewrite Hd. reflexivity.
 Qed.
